@@ -23,6 +23,9 @@ def log_syslog(message: str) -> None:
     # Come on python
     message_bytes = message.encode(errors="surrogateescape")
     message = message_bytes.decode("utf-8", errors="backslashreplace")
+    # ... and it refuses a message with an embedded NUL (ValueError), which a
+    # client can put into a selector.
+    message = message.replace("\0", "\\x00")
     syslogfunc(priority, message)
 
 
